@@ -3,9 +3,9 @@ from .common import *
 def run(tier):
     r = Run('C11', tier)
     if tier == 'quick':
-        lens = [0, 1, 7, 8, 9, 10, 30, 47, 48, 73, 74, 75, 90, 106, 138]
+        lens = [0, 1, 7, 8, 9, 10, 30, 47, 48, 73, 74, 75, 90, 106, 138, 177, 240]
     else:
-        lens = list(range(0, 161))
+        lens = list(range(0, 161)) + list(range(170, 250, 5))
     gate_obligations(r, tier, lens, threads=(1,) if tier == 'quick' else (1, 2))
     r.bounds = ['input files of every listed length %s with ALL contents and ALL keys symbolic (one query per length, hash-mode class and operation)' % (lens if tier == 'quick' else '0..160'),
                 'hash-mode byte split into the classes 0, 1, 2, >2; cipher-mode byte unconstrained']
